@@ -247,6 +247,37 @@ SetInt(f, v) == Repl(f.o, f.l, EncInt(Kind(f.n), v))
 QueryGroups(s) == IF s.segments = 2 THEN {"tq0", "tq1", "cq"} ELSE {"tq0", "cq"}
 RowBytes(s, g) == CASE g = "tq0" -> s.main * s.eb [] g = "tq1" -> s.aux * s.ex [] OTHER -> s.cc * s.ex
 
+\* --- coordinated row-count edits: the unique-query byte and the value tables of the query groups ---
+GroupSeq(s) == IF s.segments = 2 THEN <<"tq0", "tq1", "cq">> ELSE <<"tq0", "cq">>
+\* nr more rows (copies of the last nr rows) / nr fewer rows in the value table of group g, length prefix adjusted
+AddRows(M, s, g, nr) == LET vl == Fld(M, g, "q.vlen")  vs == Fld(M, g, "q.vals")  rb == RowBytes(s, g) IN
+                       <<SetInt(vl, vl.v + nr * rb), Copy(vs.o + vs.l, 0, <<vs.o + vs.l - nr * rb, nr * rb>>, <<>>)>>
+DropRows(M, s, g, nr) == LET vl == Fld(M, g, "q.vlen")  vs == Fld(M, g, "q.vals")  rb == RowBytes(s, g) IN
+                        <<SetInt(vl, vl.v - nr * rb), Repl(vs.o + vs.l - nr * rb, nr * rb, <<>>)>>
+RECURSIVE RowEdits(_, _, _, _, _, _)
+RowEdits(M, s, gs, G, nr, add) ==
+  IF gs = <<>> THEN <<>>
+  ELSE (IF Head(gs) \in G THEN (IF add THEN AddRows(M, s, Head(gs), nr) ELSE DropRows(M, s, Head(gs), nr)) ELSE <<>>)
+       \o RowEdits(M, s, Tail(gs), G, nr, add)
+\* every non-empty subset of the query groups, with and without the matching change of the unique-query
+\* byte; only "all groups + byte" is self-consistent (the announced count equals every table's row count)
+RowCountMuts(ci, M, s, uq) ==
+  LET uqf == Fld(M, "uq", "uq")
+      all == QueryGroups(s)
+      Name(add, G, bu) == (IF add THEN "q.add_rows." ELSE "q.drop_rows.") \o (IF G = all THEN "all" ELSE "some")
+                          \o (IF bu THEN "+uq" ELSE "")
+  IN UNION {UNION {
+       (IF uq + nr <= 255 /\ uq >= nr
+          THEN {Mut(ci, Name(TRUE, G, bu), uqf,
+                    (IF bu THEN <<SetInt(uqf, uq + nr)>> ELSE <<>>) \o RowEdits(M, s, GroupSeq(s), G, nr, TRUE)) : bu \in BOOLEAN}
+          ELSE {})
+       \cup
+       (IF uq - nr >= 1
+          THEN {Mut(ci, Name(FALSE, G, bu), uqf,
+                    (IF bu THEN <<SetInt(uqf, uq - nr)>> ELSE <<>>) \o RowEdits(M, s, GroupSeq(s), G, nr, FALSE)) : bu \in BOOLEAN}
+          ELSE {})
+       : G \in (SUBSET all) \ {{}}} : nr \in {1, 2, 5}}
+
 Structured(ci, M, s, uq, len) ==
   LET nl == Fld(M, "fri", "fri.nlayers")
       cl == Fld(M, "com", "com.len")
@@ -374,6 +405,7 @@ MutsOf(r) ==
   \cup UNION {BoundaryMuts(ci, M[p], r.len) : p \in 1..Len(M)}
   \cup EndMuts(ci, r.len)
   \cup Structured(ci, M, s, r.uq, r.len)
+  \cup RowCountMuts(ci, M, s, r.uq)
   \cup Compensating(ci, M)
   \cup Header1(ci, M) \cup HeaderWide(ci, M)
   \cup (IF Pairs THEN PairMuts(ci, M) ELSE {})
